@@ -838,12 +838,14 @@ class Segment:
             cnts = [e for e in sg.effects if e.kind == 'CNT']
             if sg.loops:
                 return segs, exits
-            if sg.status == 'continue':
-                if len(steps) != 1 or not (isinstance(steps[0].val, tuple) and steps[0].val[:1] == ('add',) and steps[0].val[2] == 1):
-                    return segs, exits
-                if len(cnts) != 1 or cnts[0].delta != -1:
-                    return segs, exits
-            elif steps or cnts or sg.state_effects():
+            # the local counter is stepped exactly as often as the element counter drops (once, or not at all) in every iteration
+            if len(steps) > 1 or len(cnts) > 1 or len(steps) != len(cnts):
+                return segs, exits
+            if steps and not (isinstance(steps[0].val, tuple) and steps[0].val[:1] == ('add',) and steps[0].val[2] == 1):
+                return segs, exits
+            if cnts and cnts[0].delta != -1:
+                return segs, exits
+            if sg.status != 'continue' and (steps or cnts or sg.state_effects()):
                 return segs, exits
 
         def is_guard(c):
@@ -1319,7 +1321,7 @@ class Segment:
                 if name == 'splice':
                     node = args[2] if len(args) > 2 else None
                     return Effect('MOVE', site, dest=args[0], node=node, ent=L.iter_entity(node) if node is not None else None,
-                                  nargs=len(args), src=args[1] if len(args) > 1 else None)
+                                  nargs=len(args), src=args[1] if len(args) > 1 else None, last=args[3] if len(args) > 3 else None)
                 return Effect('ORDER_OP', site, name=name, args=args)
             if L.slots is not None and recv == L.slots or L.perm is not None and recv == L.perm:
                 return Effect('STORAGE_OP', site, recv=recv, name=name, args=args)
